@@ -368,6 +368,15 @@ func main() {
 	for i := 0; i < n; i++ {
 		s := genString(r)
 		w.Emit(e.runParse(s))
+		// history independence: strings that differ from s only in one run of blanks (doubled, a tab, a newline),
+		// parsed right after it in the same process; each is judged against the model on its own
+		if i%5 == 0 {
+			for _, v := range blankVariants(r, s) {
+				c := e.runParse(v)
+				c.Class = "blank-variant-" + c.Class
+				w.Emit(c)
+			}
+		}
 		if i%4 == 0 {
 			w.Emit(e.runTok(s))
 			// a tokenizer call at a random offset, and a string literal at each quote
